@@ -45,8 +45,19 @@ def _check(event):
     return check
 
 
-SPEC = M2Spec(hooks=dict((op, _mk_hook(op)) for _, op in OPS) | {'_checkAssert': _mk_hook('_checkAssert')},
-              pure={'readAsync'})
+def h_readAsync(ex, recv, args, kwargs, st, fr, node):
+    # the implicit reader started on a read event with no pending operation must ask for a whole maximum record
+    # (2^14 bytes): what it leaves in the connection's internal buffer was already taken off the socket, so no further
+    # readiness event would ever deliver it; the SEND-side recordSize has nothing to do with it
+    from pyvc.values import VInt
+    a = args[0] if args else kwargs.get('max')
+    ex.oblige(st, 'inReadEvent:implicit-reader-asks-for-a-full-record(2^14-bytes)',
+              z3.BoolVal(False) if a is None else to_val(a) == to_val(VInt(16384)), kind='m2')
+    return [Outcome('normal', st, fresh_opaque('reader'))]
+
+
+SPEC = M2Spec(hooks=dict((op, _mk_hook(op)) for _, op in OPS) | {'_checkAssert': _mk_hook('_checkAssert'),
+                                                                 'readAsync': h_readAsync})
 for _ev in ('inReadEvent', 'inWriteEvent'):
     m2task('AsyncStateMachine.%s/dispatch' % _ev, ('C14',), ASM + _ev, SPEC, check=_check(_ev), setup=_setup,
            opts={'ground_feasible': True},
